@@ -98,8 +98,9 @@ def correspondence(ctx):
                 for _ in range(3):
                     p = list(objs)
                     rng.shuffle(p)
-                    r = rcls(constraints=p)
-                    if str(r) != canon or not (r == base):
+                    # "two constraint collections": a list or a tuple
+                    r = rcls(constraints=rng.choice([list, tuple])(p))
+                    if str(r) != canon or not (r == base) or hash(r) != hash(base) or r.to_dict() != base.to_dict():
                         bad = (" ".join(map(str, p)), "rebuilt from a permutation: %r differs from %r" % (str(r), canon))
                         break
             if bad:
